@@ -25,6 +25,26 @@ CHECKS = {
             "Held on ~115k generated cases per quick run with every sub-rule (invoke suppression, grouping, bound edge run-1 in {max,max+1}, length prefixes, duplicate-run skip, single-char fallback, multi-category chaining, multiple unk entries) occurring in >5% of cases.",
             "Reference char classes follow 'last covering range line wins, DEFAULT otherwise'. Excluded by construction: range lines covering U+0000 (astral characters take U+0000's class: open known finding), categories without unk entries. ignore_space only in the C12-precondition domain.",
             "5/C03"),
+    "C04": ("exploration",
+            "stateful property-based testing (proptest): generated operation histories interpreted against the model 'tokens == tokens of a fresh worker'; multi-threaded stress with generated per-thread histories; compile-time Send+Sync probe",
+            "Held on ~8k sequential histories (1-30 operations incl. shorter-after-longer, empty, repeated tokenize, counter updates) and ~1.9k concurrent runs (4 and 16 workers over one shared tokenizer) per quick run; ~138k tokenizations compared exactly with fresh-worker results.",
+            "The harness does not own the thread schedule (no synchronisation primitives exist in the code to model): the concurrency clause is a stress test plus a type-level check, and a race behind unsafe code would be found only probabilistically.",
+            "5/C04"),
+    "C05": ("exploration",
+            "property-based testing (proptest): byte-level round trip + differential testing of D against read(write(D)) under generated operation sequences; image exchange between the portable and the AVX2 build",
+            "Held on 1.5k generated dictionaries per quick run (all connector kinds, +-user lexicon, +-mapping, 0-5 later operations with a second round trip at a generated position): identical bytes, lengths, tokens, all connection costs; 2x60 images exchanged between builds.",
+            "Both sides start from the same image. Arbitrary corruption of image bodies is outside the claim. Cross-build clause needs a CPU with AVX2 (skipped and reported otherwise).",
+            "5/C05"),
+    "C06": ("exploration",
+            "metamorphic property-based testing (proptest): mapped vs unmapped dictionary under generated permutations and operation orders; negative generation of malformed mappings",
+            "Held on 3k generated (dictionary, permutation pair(s), step order) cases and 4k malformed mappings per quick run: tokens equal modulo pi, cost'(pi_R r, pi_L l) == cost(r,l) for all pairs incl. id 0, for matrix/raw/dual, user lexicon before/after mapping, two mappings, write/read in between.",
+            "Orientation of mapping lists as in the map tool. Ties tolerated only when the reference lattice proves several optimal paths.",
+            "5/C06"),
+    "C08": ("exploration",
+            "differential and stateful property-based testing (proptest): user lexicon vs extended system lexicon through the lattice dump; load/replace/clear histories against a last-writer-wins model; negative generation of invalid user CSVs",
+            "Held on 4k (dictionary, user rows) cases x sentences x options for candidate/optimum equivalence, 1.5k load/replace/clear histories (identical observations and images), 3k invalid user CSVs (Err, no panic) per quick run, on unmapped and mapped dictionaries.",
+            "Candidate order differs between the two lexicon layouts, so token sequences are compared only under a unique optimum.",
+            "5/C08"),
 }
 
 NOT_YET = "check not built yet in this session (work in progress; see DESIGN.md section 5)"
